@@ -416,7 +416,7 @@ def run_history(ctx, pool, gold, limit, hno, alts):
                 ctx.count('history_steps')
                 ctx.evaluated((hno, ctx.shard, step, tuple(hist[-3:])), True)
                 continue
-            elif r < 0.66 and ok_idxs:
+            elif r < 0.68 and ok_idxs:
                 # scans in flight: a scan over two or three pool messages is started on one of the decoders and advanced ONE
                 # message at a time, at later steps of the history, while every other kind of operation goes on in between (and
                 # some scans are never finished).  Each message it delivers is the message a brand-new interpreter decodes.
@@ -424,10 +424,21 @@ def run_history(ctx, pool, gold, limit, hno, alts):
                 startable = len(open_scans) < 3
                 if startable and (not open_scans or rng.random() < 0.4):
                     dn = rng.choice(list(decs))
+                    if open_scans and rng.random() < 0.7:
+                        dn = rng.choice(open_scans)['dn']         # several scans under way on ONE decoder
+                        ctx.count('scans_started_on_a_decoder_with_a_scan_in_flight')
                     members = [rng.choice(ok_idxs) for _ in range(rng.choice([2, 3]))]
                     stream = b'\r\r\n'.join(pool[j][1] for j in members)
-                    open_scans.append(dict(gen=generate_bufr_message(decs[dn], stream), members=members, at=0, dn=dn))
-                    hist.append('scan-started[%s]:%s' % (dn, '+'.join(pool[j][0] for j in members)))
+                    # (a scan has options of its own: a filter that accepts everything, one that accepts nothing, none)
+                    fkind = rng.choice(['none', 'none', 'all', 'nothing'])
+                    skw = {'all': dict(filter_expr='${%edition} >= 0'), 'nothing': dict(filter_expr='${%edition} < 0')}.get(fkind, {})
+                    if fkind == 'nothing':
+                        members_expected = []
+                    else:
+                        members_expected = members
+                    open_scans.append(dict(gen=generate_bufr_message(decs[dn], stream, **skw), members=members_expected, at=0, dn=dn))
+                    ctx.add('scan_filters_in_histories', fkind)
+                    hist.append('scan-started[%s,filter=%s]:%s' % (dn, fkind, '+'.join(pool[j][0] for j in members)))
                     ctx.count('scans_started_in_histories')
                     prev = 'scan-start'
                 else:
@@ -467,7 +478,7 @@ def run_history(ctx, pool, gold, limit, hno, alts):
                 ctx.count('history_steps')
                 ctx.evaluated((hno, ctx.shard, step, tuple(hist[-3:])), True)
                 continue
-            elif r < 0.70:
+            elif r < 0.72:
                 op = 'failing-decode'
                 hist.append('%s:%s' % (op, name))
                 dn = rng.choice(list(decs))
